@@ -14,6 +14,7 @@ import sys
 from pytypes import (
     Unsupported, default_value, dict_parts, elem, is_dict, is_list, is_opt, is_tuple, lean_type,
     lean_value, lit_str, opt_inner, par, t_dict, t_list, t_opt, t_tuple, tuple_parts, type_of_value, unify)
+from pytypes import is_rec, rec_parts, t_rec
 
 
 EXC = {
@@ -74,6 +75,13 @@ def mandatory_groups(pattern):
     walk(tree, True)
     names = {n for n, i in tree.state.groupdict.items() if i in out}
     return out, names
+
+
+class MultiPattern:
+    """a match object that may come from any of several compiled patterns (re.match(fmt, ...) with fmt ranging over a
+    constant list)"""
+    def __init__(self, patterns):
+        self.patterns = list(patterns)
 
 
 class FuncSig:
@@ -143,6 +151,10 @@ class FuncTranslator:
         self.fdeps = set()         # modules / registries this function's Lean text refers to
         self.lambdas = {}          # local `name = lambda ...` definitions (inlined)
         self.match_pat = {}        # python variable name -> compiled pattern its match object came from
+        self.defaultdicts = {}     # local `name = defaultdict(int)`: python name -> (default code, default type)
+        self.loop_consts = {}      # loop variable -> values of the module-level constant list it ranges over
+        self.block_ok = 1          # indentation level at which an assignment may start a new variable version
+        self.frames = []           # open if/else branches: {'versioned': {name: binding before}, 'pending': {name: lean name}}
         self.last_pattern = None
 
     # ------------------------------------------------------------------ helpers
@@ -228,6 +240,9 @@ class FuncTranslator:
         if is_dict(t):
             k, _ = dict_parts(t)
             return '((%s).map (·.1))' % par(v), k
+        if is_opt(t) and (opt_inner(t) == 'str' or is_list(opt_inner(t)) or is_tuple(opt_inner(t)) or is_dict(opt_inner(t))):
+            # iterating over None is a TypeError ('NoneType' object is not iterable)
+            return self.as_list('(← Py.optGetT %s)' % par(v), opt_inner(t))
         raise Unsupported('iteration over ' + t)
 
     # ------------------------------------------------------------------ expressions
@@ -308,6 +323,11 @@ class FuncTranslator:
             kt = unify(kt, t)
         for _, t in vs:
             vt = unify(vt, t)
+        if vt == 'any' and kt == 'str' and len(e.keys) >= 2 and len({k.value for k in e.keys if isinstance(k, ast.Constant)}) == len(e.keys) \
+                and all(isinstance(k, ast.Constant) and isinstance(k.value, str) and re.fullmatch(r'\w+', k.value) for k in e.keys) \
+                and not any('?' in t or t == 'any' for _, t in vs):
+            # {'a': <str>, 'b': <int>, ...}: a record with these keys, in this order (values evaluated left to right)
+            return ('(' + ', '.join(v for v, _ in vs) + ')', t_rec([(k.value, t) for k, (_, t) in zip(e.keys, vs)]))
         if 'any' in (kt, vt):
             raise Unsupported('heterogeneous dict')
         pairs = ', '.join('(%s, %s)' % (self.coerce(k, t1, kt), self.coerce(v, t2, vt)) for (k, t1), (v, t2) in zip(ks, vs))
@@ -444,6 +464,9 @@ class FuncTranslator:
         if isinstance(op, ast.Add):
             if lt == 'str' and rt == 'str':
                 return ('(%s ++ %s)' % (l, r), 'str')
+            if lt == 'opt[str]' and rt == 'str' and '←' not in r:
+                # None + 'x' is a TypeError
+                return ('((← Py.optGetT %s) ++ %s)' % (par(l), r), 'str')
             if is_list(lt) and is_list(rt):
                 u = unify(lt, rt)
                 if u != 'any':
@@ -619,6 +642,13 @@ class FuncTranslator:
             return ('(← Py.dictGet %s %s)' % (par(v), par(self.coerce(kv, kt, k))), vt)
         if t == 'match':
             return self.match_group(v, [e.slice], e.value)
+        if is_rec(t) and isinstance(e.slice, ast.Constant) and isinstance(e.slice.value, str):
+            fields = rec_parts(t)
+            names = ['p%d__' % k for k in range(len(fields))]
+            for (k, ft_), nm in zip(fields, names):
+                if k == e.slice.value:
+                    return ('(match %s with | (%s) => %s)' % (par(v), ', '.join(names), nm), ft_)
+            return ('(← (Py.raise .keyError : R Unit))', 'none')
         raise Unsupported('subscript of ' + t)
 
     def e_Attribute(self, e):
@@ -663,6 +693,9 @@ class FuncTranslator:
         g = e.generators[0]
         if g.is_async:
             raise Unsupported('async')
+        tm = self.to_min_idiom(e, g)
+        if tm is not None:
+            return tm
         it, itt = self.expr(g.iter)
         lst, et = self.as_list(it, itt)
         saved = dict(self.env)
@@ -686,6 +719,37 @@ class FuncTranslator:
         if cond:
             return ('(← (%s).filterMapM (fun %s => do if %s then pure (some %s) else pure none))' % (lst, pat, cond, par(body)), t_list(bt))
         return ('(← (%s).mapM (fun %s => do pure %s))' % (lst, pat, par(body)), t_list(bt))
+
+    def to_min_idiom(self, e, g):
+        """(x for x in unicodedata.normalize('NFD', S.lower()) if x in 'abcdefghijklmnopqrstuvwxyz'): the characters
+        of `Py.toMin S` (hand-written, table of the a-z letters in the canonical decomposition of every code point;
+        a-z are starters, so canonical reordering never moves them)"""
+        import unicodedata
+        it = g.iter
+        if not (isinstance(it, ast.Call) and isinstance(it.func, ast.Attribute) and it.func.attr == 'normalize'
+                and isinstance(it.func.value, ast.Name) and self.lookup(it.func.value.id) is None
+                and len(it.args) == 2 and not it.keywords):
+            return None
+        try:
+            if self.m.resolve(it.func.value.id) is not unicodedata:
+                return None
+        except Unsupported:
+            return None
+        form, arg = it.args
+        ok = (isinstance(form, ast.Constant) and form.value == 'NFD'
+              and isinstance(arg, ast.Call) and isinstance(arg.func, ast.Attribute) and arg.func.attr == 'lower'
+              and not arg.args and not arg.keywords
+              and isinstance(g.target, ast.Name) and isinstance(e.elt, ast.Name) and e.elt.id == g.target.id
+              and len(g.ifs) == 1 and isinstance(g.ifs[0], ast.Compare) and len(g.ifs[0].ops) == 1
+              and isinstance(g.ifs[0].ops[0], ast.In) and isinstance(g.ifs[0].left, ast.Name)
+              and g.ifs[0].left.id == g.target.id and isinstance(g.ifs[0].comparators[0], ast.Constant)
+              and g.ifs[0].comparators[0].value == 'abcdefghijklmnopqrstuvwxyz')
+        if not ok:
+            raise Unsupported('unicodedata.normalize outside the modelled idiom')
+        v, t = self.expr(arg.func.value)
+        if t != 'str':
+            raise Unsupported('unicodedata.normalize argument type ' + t)
+        return ('(Py.chars (Py.toMin %s))' % par(v), 'list[str]')
 
     def bind_pattern(self, target, t):
         """bind loop/comprehension target(s) as immutable names; returns a Lean pattern"""
@@ -930,6 +994,8 @@ class FuncTranslator:
                 raise Unsupported('isinstance on optional')
             ok = base in want or (base == 'bool' and 'int' in want) or (base == 'datetime' and 'date' in want)
             return ('true' if ok else 'false', 'bool')
+        if n == 'hasattr' and self.lookup('hasattr') is None:
+            return self.m.hasattr_call(e, self)
         if n == 'isdigits_':   # placeholder
             pass
         return self.m.call_global(n, e, self)
@@ -1021,11 +1087,49 @@ class FuncTranslator:
         if t == 'opt[module]':
             code, rt = self.m.dispatch_call('m__', meth, e, self)
             return ('(← (do match %s with | some m__ => pure %s | none => Py.raise .attributeError : R %s))' % (par(v), par(code), par(lean_type(rt))), rt)
+        if t == 'stnrfmt':
+            return self.stnrfmt_method(v, meth, e)
         if t == 'date':
             raise Unsupported('date method ' + meth)
         if t == 'int' and meth == 'bit_length' and not args:
             return ('(Py.intBitLength %s)' % par(v), 'int')
         raise Unsupported('method .%s on %s' % (meth, t))
+
+    def stnrfmt_method(self, v, meth, e):
+        """methods of stdnum.de.stnr._Format (see ModuleTranslator.ensure_stnr_format)"""
+        owner = self.m.ctx.mods.get('stdnum.de.stnr')
+        if owner is None:
+            raise Unsupported('module stdnum.de.stnr not loaded')
+        owner.ensure_stnr_format()
+        if owner.name != self.m.name:
+            self.fdeps.add(owner.name)
+        if e.keywords:
+            raise Unsupported('keywords in _Format method call')
+        args = e.args
+        self.last_pattern = None
+        if meth == 'match' and len(args) == 1 and not isinstance(args[0], ast.Starred):
+            a, at = self.expr(args[0])
+            if at != 'str':
+                raise Unsupported('_Format.match argument type ' + at)
+            return ('(Re.match_ (← Gen.de_stnr._Format_re %s) %s)' % (par(v), par(a)), 'opt[match]')
+        if meth == 'replace':
+            if len(args) == 1 and isinstance(args[0], ast.Starred):
+                a, at = self.expr(args[0].value)
+                if at == 'list[str]':
+                    a, at = '((%s).map some)' % par(a), 'list[opt[str]]'
+                if at != 'list[opt[str]]':
+                    raise Unsupported('_Format.replace star argument type ' + at)
+                items = '(← Py.starArgs 4 %s)' % par(a)
+            elif len(args) == 4 and not any(isinstance(x, ast.Starred) for x in args):
+                vals = [self.expr(x) for x in args]
+                for _, xt in vals:
+                    if xt not in ('str', 'opt[str]'):
+                        raise Unsupported('_Format.replace argument type ' + xt)
+                items = '[' + ', '.join(self.coerce(x, xt, 'opt[str]') for x, xt in vals) + ']'
+            else:
+                raise Unsupported('_Format.replace arity')
+            return ('(← Py.subRunsNext ([70, 66, 85, 80] : Str) %s %s)' % (par(v), items), 'str')
+        raise Unsupported('_Format method ' + meth)
 
     def str_method(self, v, meth, e):
         args = [self.expr(a) for a in e.args]
@@ -1090,6 +1194,8 @@ class FuncTranslator:
         pat = None
         if isinstance(recv, ast.Name):
             pat = self.match_pat.get(recv.id)
+        if isinstance(pat, MultiPattern):
+            return self.match_group_multi(v, args, pat.patterns)
         sure_idx, sure_names = mandatory_groups(pat) if pat is not None else (set(), set())
         if len(args) == 0:
             return ('(← (%s).groupR 0)' % par(v), 'str')
@@ -1108,6 +1214,25 @@ class FuncTranslator:
                     return ('(← (Py.raise .indexError : R Str))', 'str')
                 return ('((%s).groupNamed %s)' % (par(v), lit_str(a.value)), 'opt[str]')
         raise Unsupported('match.group form')
+
+    def match_group_multi(self, v, args, pats):
+        """m.group(k) where m comes from one of `pats`: a group is known to be set only if it is in all of them"""
+        if len(args) == 0:
+            return ('(← (%s).groupR 0)' % par(v), 'str')
+        if len(args) == 1 and isinstance(args[0], ast.Constant):
+            a = args[0].value
+            sures = [mandatory_groups(p_) for p_ in pats]
+            if isinstance(a, int) and not isinstance(a, bool):
+                if a == 0 or all(a in si for si, _ in sures):
+                    return ('(← (%s).groupR %d)' % (par(v), a), 'str')
+                if all(0 <= a <= p_.groups for p_ in pats):
+                    return ('((%s).group %d)' % (par(v), a), 'opt[str]')
+            if isinstance(a, str):
+                if all(a in sn for _, sn in sures):
+                    return ('(← (%s).groupNamedR %s)' % (par(v), lit_str(a)), 'str')
+                if all(a in p_.groupindex for p_ in pats):
+                    return ('((%s).groupNamed %s)' % (par(v), lit_str(a)), 'opt[str]')
+        raise Unsupported('match.group form (several patterns)')
 
     def regex_method(self, v, meth, e):
         recv = e.func.value
@@ -1167,6 +1292,10 @@ class FuncTranslator:
         if isinstance(st.value, ast.Constant):
             return []
         e = st.value
+        if self.is_warn_call(e):
+            # warnings.warn(<constants>): no effect on the result (the model assumes that no warning filter turns
+            # DeprecationWarning into an exception, which is CPython's default)
+            return []
         # list/dict mutation methods on local variables
         if isinstance(e, ast.Call) and isinstance(e.func, ast.Attribute) and isinstance(e.func.value, ast.Name) and self.lookup(e.func.value.id):
             name = e.func.value.id
@@ -1176,6 +1305,30 @@ class FuncTranslator:
                 return self.mutate(name, meth, e, ind)
         v, t = self.expr(e)
         return [p + 'let _ := %s' % v]
+
+    def is_warn_call(self, e):
+        import warnings
+        if not (isinstance(e, ast.Call) and isinstance(e.func, ast.Attribute) and e.func.attr == 'warn'
+                and isinstance(e.func.value, ast.Name) and self.lookup(e.func.value.id) is None):
+            return False
+        try:
+            if self.m.resolve(e.func.value.id) is not warnings:
+                return False
+        except Unsupported:
+            return False
+        for a in list(e.args) + [k.value for k in e.keywords]:
+            if isinstance(a, ast.Constant):
+                continue
+            if isinstance(a, ast.Name) and self.lookup(a.id) is None:
+                try:
+                    obj = self.m.resolve(a.id)
+                except Unsupported:
+                    obj = getattr(__import__('builtins'), a.id, None)
+                if isinstance(obj, type) and issubclass(obj, Warning) and not issubclass(obj, (UserWarning,)) and \
+                        issubclass(obj, (DeprecationWarning, PendingDeprecationWarning)):
+                    continue
+            return False
+        return len(e.args) >= 2 or any(k.arg == 'category' for k in e.keywords)
 
     def mutate(self, name, meth, e, ind):
         p = '  ' * ind
@@ -1227,9 +1380,22 @@ class FuncTranslator:
             self.var_decl[ln] = u
             self.env[name] = (ln, u if self.final is None else self.final.get(ln, u))
             return ln
-        # incompatible type: a new variable version (only at the top level of the function body)
-        if ind != 1 or self.loop_depth:
+        # incompatible type: a new variable version (only at the top level of the function body, or directly in
+        # a branch of an if statement that is itself at such a level: see s_If for the join)
+        if ind != self.block_ok or self.loop_depth:
             raise Unsupported('variable %s changes type (%s -> %s) inside a nested block' % (name, ct, t))
+        if self.frames:
+            self.frames[-1]['versioned'].setdefault(name, cur)
+            for fr in reversed(self.frames):
+                pln = fr['pending'].get(name)
+                if pln is not None and pln != ln:
+                    # the sibling branch already re-typed this variable: use the same Lean variable if the types agree
+                    u = unify(self.var_decl.get(pln), t)
+                    if u != 'any':
+                        self.var_decl[pln] = u
+                        self.env[name] = (pln, u if self.final is None else self.final.get(pln, u))
+                        return pln
+                    break
         self.versions[name] = self.versions.get(name, 0) + 1
         ln = '%s_%d' % (mangle(name), self.versions[name])
         self.env[name] = (ln, t)
@@ -1261,7 +1427,8 @@ class FuncTranslator:
                 for el, tmp, pt in zip(names, tmps, parts):
                     out += self.assign_to(el, tmp, pt, ind + 1)
                 return out
-            if is_list(t) or is_tuple(t):
+            if is_list(t) or is_tuple(t) or t == 'str':
+                # (a str unpacks into its characters; any other length is a ValueError, as for lists)
                 lst, et = self.as_list(v, t)
                 tmps = [self.fresh('u') for _ in names]
                 out = [p + 'match (%s : %s) with' % (lst, lean_type(t_list(et))), p + '| [%s] =>' % ', '.join(tmps)]
@@ -1334,21 +1501,71 @@ class FuncTranslator:
             out.append(p + '  Py.raise .indexError')
         return out
 
+    def defaultdict_pattern(self, st, ind):
+        """`name = defaultdict(int)`: an insertion-ordered dict whose only item accesses are `name[k] op= v`
+        (checked here: every other use of the name must be `.values()/.items()/.keys()`, `len(name)` or
+        `k in name`, none of which triggers `__missing__`), so the default never has to be materialised"""
+        val = st.value
+        if not (isinstance(val, ast.Call) and isinstance(val.func, ast.Name) and val.func.id == 'defaultdict'
+                and self.lookup('defaultdict') is None and isinstance(st.targets[0], ast.Name)):
+            return None
+        import collections
+        if self.m.resolve('defaultdict') is not collections.defaultdict:
+            return None
+        if val.keywords or len(val.args) != 1 or not (isinstance(val.args[0], ast.Name) and val.args[0].id == 'int'
+                                                      and self.lookup('int') is None):
+            raise Unsupported('defaultdict form')
+        name = st.targets[0].id
+        if ind != 1 or self.loop_depth:
+            raise Unsupported('defaultdict created inside a nested block')
+        parents = {}
+        for node in ast.walk(self.fn):
+            for ch in ast.iter_child_nodes(node):
+                parents[ch] = node
+        for node in ast.walk(self.fn):
+            if isinstance(node, ast.Name) and node.id == name and node is not st.targets[0]:
+                par_ = parents.get(node)
+                gp = parents.get(par_)
+                ok = False
+                if isinstance(par_, ast.Subscript) and par_.value is node and isinstance(gp, ast.AugAssign) and gp.target is par_:
+                    ok = True
+                elif isinstance(par_, ast.Attribute) and par_.attr in ('values', 'items', 'keys') and isinstance(gp, ast.Call) \
+                        and gp.func is par_ and not gp.args and not gp.keywords:
+                    ok = True
+                elif isinstance(par_, ast.Call) and isinstance(par_.func, ast.Name) and par_.func.id == 'len' and par_.args == [node]:
+                    ok = True
+                elif isinstance(par_, ast.Compare) and len(par_.ops) == 1 and isinstance(par_.ops[0], (ast.In, ast.NotIn)) \
+                        and par_.comparators[0] is node:
+                    ok = True
+                if not ok:
+                    raise Unsupported('use of defaultdict %s outside the modelled forms' % name)
+        self.defaultdicts[name] = ('(0 : Int)', 'int')
+        return self.assign_to(st.targets[0], '[]', 'dict[?,?]', ind)
+
     def s_Assign(self, st, ind):
         if len(st.targets) != 1:
             # a = b = value
             out = []
             first = st.targets[0]
             out += self.s_Assign(ast.Assign(targets=[first], value=st.value), ind)
+            if not isinstance(first, ast.Name):
+                # a[i] = b[j] = value: the value is evaluated once, then stored into the targets from left to right
+                v, t = self.expr(st.value)
+                tmp = self.fresh('ch')
+                out = ['  ' * ind + 'let %s := %s' % (tmp, v)]
+                for tg in st.targets:
+                    out += self.assign_to(tg, tmp, t, ind)
+                return out
             for t in st.targets[1:]:
-                if not isinstance(first, ast.Name):
-                    raise Unsupported('chained assignment to non-names')
                 out += self.s_Assign(ast.Assign(targets=[t], value=ast.Name(id=first.id, ctx=ast.Load())), ind)
             return out
         if isinstance(st.value, ast.Lambda) and isinstance(st.targets[0], ast.Name):
             # local helper `f = lambda x: ...`: inlined at its call sites
             self.lambdas[st.targets[0].id] = st.value
             return []
+        dd = self.defaultdict_pattern(st, ind)
+        if dd is not None:
+            return dd
         pp = self.pop_pattern(st, ind)
         if pp is not None:
             return pp
@@ -1362,6 +1579,31 @@ class FuncTranslator:
         return self.assign_to(st.targets[0], v, t, ind)
 
     def s_AugAssign(self, st, ind):
+        tg = st.target
+        if isinstance(tg, ast.Subscript) and isinstance(tg.value, ast.Name) and tg.value.id in self.defaultdicts \
+                and self.lookup(tg.value.id) and not isinstance(tg.slice, ast.Slice):
+            # d[k] op= v on a defaultdict: read (default when missing; a new key goes to the end), compute, store
+            p = '  ' * ind
+            name = tg.value.id
+            dflt, dflt_t = self.defaultdicts[name]
+            ln, dt = self.lookup(name)
+            kv, kt = self.expr(tg.slice)
+            ktmp, ctmp = self.fresh('k'), self.fresh('cur')
+            saved = self.env.get(ctmp)
+            self.env[ctmp] = (ctmp, dflt_t)
+            rv, rt = self.expr(ast.BinOp(left=ast.Name(id=ctmp, ctx=ast.Load()), op=st.op, right=st.value))
+            del self.env[ctmp]
+            nt = unify(dt, t_dict(kt, unify(rt, dflt_t)))
+            if nt == 'any' or not is_dict(nt):
+                raise Unsupported('defaultdict item type')
+            self.note_assign(name, nt, ind)
+            ln, dt2 = self.lookup(name)
+            k2, v2 = dict_parts(dt2)
+            if self.final is not None and (k2 != kt or v2 != rt or v2 != dflt_t):
+                raise Unsupported('defaultdict item type')
+            return [p + 'let %s := %s' % (ktmp, kv),
+                    p + 'let %s := Py.dictGetD %s %s %s' % (ctmp, ln, ktmp, dflt),
+                    p + '%s := Py.dictSet %s %s %s' % (ln, ln, ktmp, par(rv))]
         if not isinstance(st.target, ast.Name):
             raise Unsupported('augmented assignment target')
         fake = ast.BinOp(left=ast.Name(id=st.target.id, ctx=ast.Load()), op=st.op, right=st.value)
@@ -1425,14 +1667,59 @@ class FuncTranslator:
         c, ct = self.expr(st.test)
         cond = self.truthy(c, ct)
         out = [p + 'if %s then' % cond]
-        out += self.stmts(st.body, ind + 1) or [p + '  pure ()']
+        # A branch that sits directly in a block where variables may be re-typed may re-type them too.  Bindings are
+        # branch-local: the else-branch starts from the bindings before the `if`; after the statement a re-typed
+        # variable is usable only if every branch that can fall through left it in the same Lean variable.
+        allow = ind == self.block_ok and not self.loop_depth
+        body_lines, body_ver, body_end = self.run_branch(lambda: self.stmts(st.body, ind + 1), ind + 1, allow, {})
+        out += body_lines or [p + '  pure ()']
+        else_ver, else_end = {}, {}
         if st.orelse:
+            pending = {n: b[0] for n, b in body_end.items()}
             if len(st.orelse) == 1 and isinstance(st.orelse[0], ast.If):
-                sub = self.s_If(st.orelse[0], ind)
+                sub, else_ver, else_end = self.run_branch(lambda: self.s_If(st.orelse[0], ind), ind, allow, pending)
                 out += [p + 'else ' + sub[0].lstrip()] + sub[1:]
             else:
-                out += [p + 'else'] + (self.stmts(st.orelse, ind + 1) or [p + '  pure ()'])
+                else_lines, else_ver, else_end = self.run_branch(lambda: self.stmts(st.orelse, ind + 1), ind + 1, allow, pending)
+                out += [p + 'else'] + (else_lines or [p + '  pure ()'])
+        body_exits, else_exits = always_exits(st.body), bool(st.orelse) and always_exits(st.orelse)
+        for name in list(body_ver) + [n for n in else_ver if n not in body_ver]:
+            old = body_ver.get(name) or else_ver[name]
+            b, e_ = body_end.get(name, old), else_end.get(name, old)
+            if body_exits and else_exits:
+                res = old
+            elif body_exits:
+                res = e_
+            elif else_exits:
+                res = b
+            elif b[0] == e_[0] and unify(b[1], e_[1]) != 'any':
+                res = (b[0], unify(b[1], e_[1]))
+            else:
+                raise Unsupported('variable %s has different types after the branches of an if statement' % name)
+            self.env[name] = res
+            if res[0] != old[0] and self.frames:
+                self.frames[-1]['versioned'].setdefault(name, old)
         return out
+
+    def run_branch(self, fn, level, allow, pending):
+        """translate one branch of an if statement; returns (lines, {name: binding before the branch} for the
+        variables the branch re-typed, {name: binding at the end of the branch}); the bindings before are restored"""
+        if not allow:
+            return fn(), {}, {}
+        saved_ok = self.block_ok
+        self.block_ok = level
+        fr = {'versioned': {}, 'pending': pending}
+        self.frames.append(fr)
+        try:
+            lines = fn()
+        finally:
+            self.frames.pop()
+            self.block_ok = saved_ok
+        ver = fr['versioned']
+        end = {n: self.env[n] for n in ver}
+        for n, old in ver.items():
+            self.env[n] = old
+        return lines, ver, end
 
     def s_For(self, st, ind):
         p = '  ' * ind
@@ -1442,9 +1729,21 @@ class FuncTranslator:
         lst, et = self.as_list(it, itt)
         saved = dict(self.env)
         pat = self.bind_pattern(st.target, et)
+        lc = None
+        if isinstance(st.iter, ast.Name) and isinstance(st.target, ast.Name) and self.lookup(st.iter.id) is None and et == 'str' \
+                and st.target.id not in assigned_names(ast.Module(body=st.body, type_ignores=[])):
+            try:
+                vals = self.m.resolve(st.iter.id)
+            except Unsupported:
+                vals = None
+            if isinstance(vals, (list, tuple)) and vals and all(isinstance(x, str) for x in vals):
+                lc = st.target.id
+                self.loop_consts[lc] = list(vals)
         self.loop_depth += 1
         body = self.stmts(st.body, ind + 1) or [p + '  pure ()']
         self.loop_depth -= 1
+        if lc:
+            self.loop_consts.pop(lc, None)
         # loop targets go out of scope in the model (python leaks them; not used by the library)
         for n in assigned_names(st.target):
             if n in saved:
@@ -1457,14 +1756,55 @@ class FuncTranslator:
         p = '  ' * ind
         if st.orelse:
             raise Unsupported('while/else')
-        fuel = self.m.while_fuel(self.fn.name, st, self)
+        fuel = self.while_fuel(st)
         c, ct = self.expr(st.test)
+        cond = self.truthy(c, ct)
         self.loop_depth += 1
         body = self.stmts(st.body, ind + 2)
         self.loop_depth -= 1
+        c2, ct2 = self.expr(st.test)
         return [p + 'for _ in List.range %s do' % fuel,
-                p + '  if !(%s) then break' % self.truthy(c, ct),
-                p + '  else'] + body
+                p + '  if !(%s) then break' % cond,
+                p + '  else'] + body + [
+                # never reached when the bound is right (see while_fuel); keeps a wrong bound from going unnoticed
+                p + 'if %s then' % self.truthy(c2, ct2),
+                p + '  Py.raise .other']
+
+    def while_fuel(self, st):
+        """an iteration bound (a Lean Nat term, evaluated once before the loop) for `while X > c: ...; X = X // d; ...`
+        with constants c >= 0, d >= 2, where that division is an unconditional statement of the body and the only
+        assignment to the int variable X, and the body has no `continue`.  Every iteration that completes at least
+        halves X (and X > c >= 0 holds when it starts), so after bit_length(X) iterations X = 0 <= c: the loop runs at
+        most bit_length(X at entry) times; it does not run at all when X <= 0."""
+        t = st.test
+        if not (isinstance(t, ast.Compare) and len(t.ops) == 1 and isinstance(t.left, ast.Name)
+                and isinstance(t.comparators[0], ast.Constant) and type(t.comparators[0].value) is int):
+            raise Unsupported('while loop')
+        x, c = t.left.id, t.comparators[0].value
+        if not (isinstance(t.ops[0], ast.Gt) and c >= 0 or isinstance(t.ops[0], ast.GtE) and c >= 1):
+            raise Unsupported('while loop')
+        got = self.lookup(x)
+        if not got or got[1] != 'int':
+            raise Unsupported('while loop')
+
+        def is_div(stm):
+            if isinstance(stm, ast.AugAssign):
+                return (isinstance(stm.target, ast.Name) and stm.target.id == x and isinstance(stm.op, ast.FloorDiv)
+                        and isinstance(stm.value, ast.Constant) and type(stm.value.value) is int and stm.value.value >= 2)
+            if isinstance(stm, ast.Assign) and len(stm.targets) == 1:
+                tg, v = stm.targets[0], stm.value
+                return (isinstance(tg, ast.Name) and tg.id == x and isinstance(v, ast.BinOp) and isinstance(v.op, ast.FloorDiv)
+                        and isinstance(v.left, ast.Name) and v.left.id == x
+                        and isinstance(v.right, ast.Constant) and type(v.right.value) is int and v.right.value >= 2)
+            return False
+        stores = [n for b in st.body for n in ast.walk(b) if isinstance(n, ast.Name) and n.id == x and isinstance(n.ctx, ast.Store)]
+        if len(stores) != 1 or sum(1 for b in st.body if is_div(b)) != 1:
+            raise Unsupported('while loop')
+        for b in st.body:
+            for n in ast.walk(b):
+                if isinstance(n, (ast.Continue, ast.While, ast.FunctionDef, ast.Lambda, ast.Global, ast.Nonlocal)):
+                    raise Unsupported('while loop')
+        return '(Py.natBitLength %s)' % got[0]
 
     def s_Break(self, st, ind):
         return ['  ' * ind + 'break']
@@ -1551,6 +1891,8 @@ class FuncTranslator:
         self.ret_types = []
         self.lambda_ctr = 0
         self.loop_depth = 0
+        self.block_ok = 1
+        self.frames = []
         self._fmt_prelude = None
         store = assigned_names(self.fn)
         head = []
